@@ -53,6 +53,13 @@ type ReadersPlan struct {
 	// unaffordable; the interleavings explored are coarser, still exact and
 	// replayable.
 	YieldStride int `json:"yield_stride,omitempty"`
+	// GCPoints > 0 (statement-yield flavour): one more task does nothing but
+	// force a garbage collection, and let pending finalizers run, at this many
+	// of its scheduling turns — "a collection happens HERE" as a planned event
+	// between (and, with statement-level yields, inside) the readers' calls.
+	// An object a call no longer refers to may be finalised while the call is
+	// still working on memory it got from it.
+	GCPoints int `json:"gc_points,omitempty"`
 }
 
 type ROp struct {
@@ -816,6 +823,9 @@ func genReaders(seed uint64, allowFmt bool, cold bool, deepTier bool, rare strin
 		p.Tasks = append(p.Tasks, ops)
 	}
 	p.Pad = r.Intn(8)
+	if allowFmt && !p.RefAfter && p.YieldStride == 0 && r.Chance(1, 20) {
+		p.GCPoints = 1 + r.Intn(4)
+	}
 	p.Sched = engine.Schedule{Mode: "hash", Seed: r.Uint64(), Den: r.PickInt(1, 2, 3, 8)}
 	p.Poisons = []uint64{r.PickUint64(0, 1, 8), r.PickUint64(1<<63-1, ^uint64(0), r.Uint64()), r.PickUint64(0, 1, 8, 1<<63-1, ^uint64(0))}
 	return p
